@@ -748,6 +748,13 @@ pub fn gen_bool_expr(t: &mut Tape, cfg: &GenCfg, env: &Env, depth: usize) -> ETr
         3 => {
             // string predicates
             let l = gen_str_expr(t, cfg, env, 1);
+            // strings built during evaluation on both sides: the same new string can be
+            // produced twice in one evaluation
+            if t.chance(1, 5) {
+                let r = if t.chance(1, 2) { l.clone() } else { gen_str_expr(t, cfg, env, 1) };
+                let op = if t.chance(2, 3) { Bin::Equal } else { Bin::NotEqual };
+                return ETree::Bin(op, bx(l), bx(r));
+            }
             match t.pick(6) {
                 0 => ETree::Bin(Bin::Prefix, bx(l), bx(gen_str_expr(t, cfg, env, 0))),
                 1 => ETree::Bin(Bin::Suffix, bx(l), bx(gen_str_expr(t, cfg, env, 0))),
